@@ -554,6 +554,10 @@ class Interp:
             # a module of the standard library, bound to a name the program never looks into
             self.declare(env, form[1] or path[-1], LModuleObj(path[-1], {}), module_level)
             return
+        if path == ["std", "regexp"] and form[0] == "syms" and all(n == "RegExp" for (n, _a) in form[1]):
+            for (n, alias) in form[1]:
+                self.declare(env, alias or n, _natives.regexp_class(self), module_level)
+            return
         if path[0] != "self":
             if path[0] == "std":
                 raise Unsupported("std import")
@@ -979,7 +983,7 @@ class Interp:
         raise self.error("RuntimeError", "%s is not callable." % self.class_of(f).name)
 
     def instantiate(self, cls, args):
-        if cls.native_kind is not None and cls.native_kind != "error":
+        if cls.native_kind is not None and cls.native_kind not in ("error", "regexp"):
             raise Unsupported("instantiating builtin class %s" % cls.name)
         inst = LInstance(cls)
         init = cls.find_method("init")
